@@ -18,6 +18,7 @@ import (
 	"strconv"
 	"strings"
 	"sync"
+	"sync/atomic"
 	"time"
 
 	"verifsim/harness"
@@ -155,6 +156,40 @@ func altModfile(simDir string) string {
 		os.WriteFile(filepath.Join(buildDir(), "alt", "go.sum"), sb, 0644)
 	}
 	return p
+}
+
+// effectiveCores measures how many goroutines' worth of CPU the machine delivers right now.
+func effectiveCores() float64 {
+	spin := func(n int) float64 {
+		var total int64
+		var wg sync.WaitGroup
+		deadline := time.Now().Add(150 * time.Millisecond)
+		for i := 0; i < n; i++ {
+			wg.Add(1)
+			go func() {
+				defer wg.Done()
+				var cnt, x int64
+				for time.Now().Before(deadline) {
+					for j := int64(0); j < 20000; j++ {
+						x += j ^ cnt
+					}
+					cnt++
+				}
+				if x == 42 {
+					cnt++
+				}
+				atomic.AddInt64(&total, cnt)
+			}()
+		}
+		wg.Wait()
+		return float64(total)
+	}
+	one := spin(1)
+	all := spin(runtime.NumCPU())
+	if one <= 0 {
+		return 4
+	}
+	return all / one
 }
 
 // crashOracle names, per property, the "never crashes" oracle.
@@ -325,12 +360,22 @@ func main() {
 		fatal2("unknown property %q", *prop)
 	}
 	if *workers <= 0 {
-		*workers = runtime.NumCPU()
-		// The sandbox VM advertises 16 CPUs but delivers the throughput of 2-4; beyond 8
-		// worker processes the batch gets slower, not faster (measured).
-		if *workers > 8 {
-			*workers = 8
+		// The sandbox VM advertises 16 CPUs; at times it delivers the throughput of 16, at
+		// times of 2-4 (then more than 8 worker processes make a batch slower). The worker
+		// count follows what a short spin test measures now; it changes how many runs fit
+		// into the budget, never what a run does (run i has seed mix(master, i+1)).
+		eff := effectiveCores()
+		*workers = int(eff*0.75 + 0.5)
+		if *workers < 4 {
+			*workers = 4
 		}
+		if *workers > 12 {
+			*workers = 12
+		}
+		if *workers > runtime.NumCPU() {
+			*workers = runtime.NumCPU()
+		}
+		fmt.Printf("measured parallel throughput: %.1f cores of %d advertised -> %d worker processes\n", eff, runtime.NumCPU(), *workers)
 	}
 	master := uint64(20260921)
 	if v := os.Getenv("VERIF_SEED"); v != "" {
